@@ -278,7 +278,7 @@ func c10PatchMuts(s *c10Stream) []c10Mut {
 			if x.FileIndex >= 0 && x.FileIndex < nT {
 				nb = c10Nb(s.TC.Files[x.FileIndex].Size)
 			}
-			for _, v := range c10Uniq([]int64{-1, 0, 1, nb - 1, nb, nb + 1, c10Big46, c10Big47, c10Big62, -c10Big62, 1 << 28, 1<<47 + 1}) {
+			for _, v := range c10Uniq([]int64{-1, 0, 1, nb - 1, nb, nb + 1, c10Big46, c10Big47, c10Big62, -c10Big62, 1 << 28, 1<<28 - 1, 1<<47 + 1}) {
 				v := v
 				if v == x.BlockIndex {
 					continue
